@@ -8,6 +8,7 @@ import (
 	"errors"
 	"fmt"
 	"math/big"
+	"sync"
 
 	"github.com/wollac/iota-crypto-demo/pkg/slip10"
 	"github.com/wollac/iota-crypto-demo/pkg/slip10/elliptic"
@@ -22,7 +23,7 @@ func init() {
 		Builds:   []string{"default", "386"}, // the 386 build runs 1/6 of the random classes on a 32-bit target
 		Scale386: 6,
 		Parallel: 4, // cases are judged on 4 goroutines per shard: the library functions are stateless, shared state inside them shows up as wrong verdicts
-		Rule: "commute: (curve in {secp256k1, P-256}, seed, path, non-hardened index from {0, 1, 2^31-1, random}): DeriveChild on the extended private key then Public() vs. DeriveChild on Public(): key bytes, chain code, fingerprint. shift: (curve, scalar k, 32-byte shift) with shift in {0, 1, k, n-k, n-k+-1, n-1, n, n+1, 2^256-1, random < n, random >= n} and k in {1, 2, n-1, (n+-1)/2, random}: PrivateKey.Shift and PublicKey.Shift must both report ErrInvalidKey or both succeed with pub' = point(priv') (the point computed by the affine model for the returned private scalar); no panic. Whether the common verdict/value is the one SLIP-0010 prescribes is counted here and judged by C02. " +
+		Rule: "commute: (curve in {secp256k1, P-256}, seed, path, non-hardened index from {0, 1, 2^31-1, random}, plus the published P-256 vector whose child needs a retry): four children (idx, a sibling, idx again, another sibling) are derived from the SAME extended private key object and from the SAME Public() object; for each, DeriveChild then Public() vs. DeriveChild on Public(): key bytes, chain code, fingerprint. shift also includes secp256k1 shifts lambda*k and lambda^2*k (the shifted point has the same y as the key and another x). shift: (curve, scalar k, 32-byte shift) with shift in {0, 1, k, n-k, n-k+-1, n-1, n, n+1, 2^256-1, random < n, random >= n} and k in {1, 2, n-1, (n+-1)/2, random}: PrivateKey.Shift and PublicKey.Shift must both report ErrInvalidKey or both succeed with pub' = point(priv') (the point computed by the affine model for the returned private scalar); no panic. Whether the common verdict/value is the one SLIP-0010 prescribes is counted here and judged by C02. " +
 			"Non-trivial: distinct shift cases in a named corner class and all commute cases.",
 		Assumptions: []string{"math/big", "the affine model in harness/oracle/weier (self-tested)"},
 		SelfTest:    weier.SelfTest,
@@ -35,7 +36,7 @@ func init() {
 			}
 			return map[string]interface{}{"curve": cname(p[0][0]), "scalar": fw.Hex(p[1]), "shift": fw.Hex(p[2])}
 		},
-		Required: []string{"commute ok", "shift both succeed", "shift both invalid", "shift: sum is identity", "shift: shift == scalar (P+P)", "shift: shift == 0"},
+		Required: []string{"commute ok", "shift both succeed", "shift both invalid", "shift: sum is identity", "shift: shift == scalar (P+P)", "shift: shift == 0", "shift: [shift]G has the same y as the public key (endomorphism)"},
 	})
 }
 
@@ -67,23 +68,42 @@ func judge(class string, key []byte, o *fw.Obs) {
 	o.Nontrivial()
 	if class == "commute" {
 		seed, path, idx := p[1], decPath(p[2]), fw.GetU32(p[3])
-		var parent, childPriv, childPub, viaPriv *slip10.ExtendedKey
-		var err, err1, err2 error
+		// several children from the SAME two parent objects: idx, a sibling, idx again, another sibling. Each
+		// pair (private child, public child) must commute, also those derived after earlier ones.
+		idxs := []uint32{idx, idx ^ 1, idx, (idx + 7) &^ (1 << 31)}
+		type pair struct {
+			priv, pub, via *slip10.ExtendedKey
+			e1, e2         error
+			snap           [][]byte // chain codes and key bytes as they were right after the derivation
+		}
+		pairs := make([]pair, len(idxs))
+		var parent *slip10.ExtendedKey
+		var err error
 		if !o.Try("DeriveKeyFromPath/DeriveChild/Public", func() {
 			parent, err = slip10.DeriveKeyFromPath(seed, c, path)
 			if err != nil {
 				return
 			}
 			pubParent := parent.Public()
-			childPriv, err1 = parent.DeriveChild(idx)
-			childPub, err2 = pubParent.DeriveChild(idx)
-			// history: further derivations from the same parent objects must not change the children
-			// that were handed out before (they are inspected only afterwards)
-			_, _ = parent.DeriveChild(idx ^ 1)
-			_, _ = pubParent.DeriveChild(idx ^ 1)
-			_, _ = parent.DeriveChild((idx ^ 2) | 1<<31)
-			if err1 == nil {
-				viaPriv = childPriv.Public()
+			for i, ix := range idxs {
+				pairs[i].priv, pairs[i].e1 = parent.DeriveChild(ix)
+				pairs[i].pub, pairs[i].e2 = pubParent.DeriveChild(ix)
+				if pairs[i].e1 == nil && pairs[i].e2 == nil {
+					for _, b := range [][]byte{pairs[i].priv.ChainCode, pairs[i].pub.ChainCode, pairs[i].priv.Key.Bytes(), pairs[i].pub.Key.Bytes()} {
+						pairs[i].snap = append(pairs[i].snap, append([]byte(nil), b...))
+					}
+				}
+				if i == 1 {
+					_, _ = parent.DeriveChild((idx ^ 2) | 1<<31) // a hardened one in between
+				}
+			}
+			// further derivations, different on the two sides, after everything was handed out
+			_, _ = parent.DeriveChild((idx ^ 4) | 1<<31)
+			_, _ = pubParent.DeriveChild((idx + 13) &^ (1 << 31))
+			for i := range pairs {
+				if pairs[i].e1 == nil {
+					pairs[i].via = pairs[i].priv.Public()
+				}
 			}
 		}) {
 			return
@@ -92,28 +112,43 @@ func judge(class string, key []byte, o *fw.Obs) {
 			o.Fail("error", "deriving the parent failed: %v", err)
 			return
 		}
-		if err1 != nil || err2 != nil {
-			o.Fail("error", "non-hardened child %d: private side err=%v, public side err=%v", idx, err1, err2)
-			return
+		for i, pr := range pairs {
+			what := fmt.Sprintf("child %d (derivation %d of %d from the same parent objects)", idxs[i], i+1, len(idxs))
+			if pr.e1 != nil || pr.e2 != nil {
+				o.Fail("error", "non-hardened %s: private side err=%v, public side err=%v", what, pr.e1, pr.e2)
+				return
+			}
+			now := [][]byte{pr.priv.ChainCode, pr.pub.ChainCode, pr.priv.Key.Bytes(), pr.pub.Key.Bytes()}
+			for k := range now {
+				if !bytes.Equal(now[k], pr.snap[k]) {
+					o.Fail("aliasing", "%s: a chain code / key handed out earlier was changed by later derivations from the same parent object: it was %x and is %x now", what, pr.snap[k], now[k])
+					return
+				}
+			}
+			var kb1, kb2, fp1, fp2, fp0 []byte
+			if !o.Try("Bytes/Fingerprint", func() {
+				kb1, kb2 = pr.via.Key.Bytes(), pr.pub.Key.Bytes()
+				fp1, fp2, fp0 = pr.via.Fingerprint(), pr.pub.Fingerprint(), pr.priv.Fingerprint()
+			}) {
+				return
+			}
+			if pr.via.IsPrivate() || pr.pub.IsPrivate() || !pr.priv.IsPrivate() {
+				o.Fail("kind", "wrong key kinds after derivation")
+				return
+			}
+			if !bytes.Equal(kb1, kb2) || !bytes.Equal(pr.via.ChainCode, pr.pub.ChainCode) || !bytes.Equal(fp1, fp2) {
+				o.Fail("commute", "%s: public key of the private child (%x, cc %x, fp %x) differs from the child of the public key (%x, cc %x, fp %x)",
+					what, kb1, pr.via.ChainCode, fp1, kb2, pr.pub.ChainCode, fp2)
+				return
+			}
+			if !bytes.Equal(fp0, fp1) || !bytes.Equal(pr.priv.ChainCode, pr.pub.ChainCode) {
+				o.Fail("commute", "%s: fingerprint/chain code of the private child differ from the public child", what)
+				return
+			}
 		}
-		var kb1, kb2, fp1, fp2 []byte
-		if !o.Try("Bytes/Fingerprint", func() {
-			kb1, kb2 = viaPriv.Key.Bytes(), childPub.Key.Bytes()
-			fp1, fp2 = viaPriv.Fingerprint(), childPub.Fingerprint()
-		}) {
-			return
-		}
-		if viaPriv.IsPrivate() || childPub.IsPrivate() || !childPriv.IsPrivate() {
-			o.Fail("kind", "wrong key kinds after derivation")
-			return
-		}
-		if !bytes.Equal(kb1, kb2) || !bytes.Equal(viaPriv.ChainCode, childPub.ChainCode) || !bytes.Equal(fp1, fp2) {
-			o.Fail("commute", "child %d: public key of the private child (%x, cc %x, fp %x) differs from the child of the public key (%x, cc %x, fp %x)",
-				idx, kb1, viaPriv.ChainCode, fp1, kb2, childPub.ChainCode, fp2)
-			return
-		}
-		if !bytes.Equal(childPriv.Fingerprint(), fp1) || !bytes.Equal(childPriv.ChainCode, childPub.ChainCode) {
-			o.Fail("commute", "fingerprint/chain code of the private child differ from the public child")
+		// the same index derived twice gives the same child
+		if !bytes.Equal(pairs[0].pub.Key.Bytes(), pairs[2].pub.Key.Bytes()) || !bytes.Equal(pairs[0].priv.Key.Bytes(), pairs[2].priv.Key.Bytes()) || !bytes.Equal(pairs[0].pub.ChainCode, pairs[2].pub.ChainCode) {
+			o.Fail("commute", "child %d derived twice from the same parent objects gives different keys", idx)
 			return
 		}
 		o.Count("commute ok")
@@ -145,6 +180,14 @@ func judge(class string, key []byte, o *fw.Obs) {
 		o.Count("shift: sum is identity")
 	case s.Cmp(n) >= 0:
 		o.Count("shift: shift >= n")
+	}
+	if p[0][0] == 0 {
+		l := secpLambda()
+		lk := new(big.Int).Mod(new(big.Int).Mul(l, k), n)
+		llk := new(big.Int).Mod(new(big.Int).Mul(l, lk), n)
+		if lk.Cmp(s) == 0 || llk.Cmp(s) == 0 {
+			o.Count("shift: [shift]G has the same y as the public key (endomorphism)")
+		}
 	}
 	var pub, r1, r2 slip10.Key
 	var e1, e2 error
@@ -211,7 +254,52 @@ func judge(class string, key []byte, o *fw.Obs) {
 
 func fill(v *big.Int) []byte { return v.FillBytes(make([]byte, 32)) }
 
+// lambda is a non-trivial cube root of unity modulo the secp256k1 group order: [lambda](x, y) = (beta*x, y),
+// a point with the SAME y and a different x. Computed, not quoted: z^((n-1)/3) for the first z that gives a value != 1.
+var lambdaOnce sync.Once
+var lambda *big.Int
+
+func secpLambda() *big.Int {
+	lambdaOnce.Do(func() {
+		n := weier.Secp256k1().N
+		e := new(big.Int).Div(new(big.Int).Sub(n, big.NewInt(1)), big.NewInt(3))
+		for z := int64(2); ; z++ {
+			l := new(big.Int).Exp(big.NewInt(z), e, n)
+			if l.Cmp(big.NewInt(1)) != 0 {
+				lambda = l
+				return
+			}
+		}
+	})
+	return lambda
+}
+
 func gen(g *fw.Gen) {
+	// the published SLIP-0010 P-256 vector whose non-hardened child m/28578H/33941 needs a retry, and its siblings
+	if g.Shard == 0 {
+		seed := []byte{0, 1, 2, 3, 4, 5, 6, 7, 8, 9, 10, 11, 12, 13, 14, 15}
+		path := make([]byte, 4)
+		binary.LittleEndian.PutUint32(path, 28578|1<<31)
+		for _, ix := range []uint32{33941, 33940, 33942, 33934} {
+			g.Emit("commute", fw.Pack([]byte{1}, seed, path, fw.U32(ix)))
+		}
+	}
+	// secp256k1 shifts lambda*k and lambda^2*k: [shift]G has the same y as the public key and another x
+	for n := g.ShareOf(160, 8000); n > 0; n-- {
+		N := weier.Secp256k1().N
+		k := new(big.Int).SetBytes(g.Bytes(32))
+		k.Mod(k, new(big.Int).Sub(N, big.NewInt(1))).Add(k, big.NewInt(1))
+		if g.Rng.Intn(4) == 0 {
+			k = big.NewInt(int64(1 + g.Rng.Intn(3)))
+		}
+		l := secpLambda()
+		sft := new(big.Int).Mul(l, k)
+		if g.Rng.Intn(2) == 0 {
+			sft.Mul(sft, l)
+		}
+		sft.Mod(sft, N)
+		g.Emit("shift", fw.Pack([]byte{0}, fill(k), fill(sft)))
+	}
 	for n := g.ShareOf(2400, 80000); n > 0; n-- {
 		cid := byte(g.Rng.Intn(2))
 		l := g.Rng.Intn(4)
